@@ -120,7 +120,11 @@ def run(chk):
     uneq = [gen_case(rng, chk, rng.choice([10, 40]), unequal=True) for _ in range(nr // 5)]
     found, corr, thm = diffrun.campaign(chk, fam, cases + ex + rnd, proof_ok, detail, signature_of, "C08", batch=60)
     f2, c2, t2 = diffrun.campaign(chk, fam, uneq, proof_ok, detail, signature_of, "C08 unequal size arguments", batch=1)
-    diffrun.conclude(chk, found or f2, corr or c2, thm or t2, proof_ok and driver_ok, detail, "C08 shm buffer")
+    # supporting run / failing-input search for the atomicity clause: producer and consumer processes on a nearly full buffer
+    st = [["stress %d %d:%d" % (cap, chunk, total)] for cap, chunk, total in
+          ([(4096, 2048, 4000000), (64, 48, 300000)] + ([(2097152, 1048576, 400000000), (17, 9, 500000), (1024, 1000, 20000000)] if thorough else []))]
+    f3, c3, t3 = diffrun.campaign(chk, fam, st, proof_ok, detail, signature_of, "C08 concurrent producer/consumer", batch=1, min_ops=1)
+    diffrun.conclude(chk, found or f2 or f3, corr or c2 or c3, thm or t2 or t3, proof_ok and driver_ok, detail, "C08 shm buffer")
     chk.cov["rule"] = ("op files on one buffer name through up to 6 handles: capacities 1..65536, lengths biased to free, free±1, 0, capacity+1; header positions compared after every op; "
                        "exhaustive: all sequences of %d ops over write/read lengths 0..S+1, clear, used for small capacities; distinct by op-file hash, non-trivial = more than one op" % depth)
     chk.assumptions += ["capacity < 2^31 - 1 (the read result is a pint)", "POSIX shm objects are zero-filled at creation and MAP_SHARED is coherent (trusted)",
